@@ -7,6 +7,7 @@ use std::panic::{catch_unwind, AssertUnwindSafe};
 
 mod util;
 mod angles;
+mod rcp;
 mod fit;
 mod sel;
 mod circles;
@@ -35,6 +36,7 @@ fn dispatch(rec: &Value, st: &mut State) -> Value {
     let m = rec["m"].as_str().unwrap_or("");
     match m {
         "angles" => angles::exec(rec, st),
+        "rcp" => rcp::exec(rec, st),
         "fit" => fit::exec(rec, st),
         "sel" => sel::exec(rec, st),
         "circles" => circles::exec(rec, st),
